@@ -113,17 +113,47 @@ theorem readTry_cases (p : Pipe) (n : Nat) :
       · simp [hl]
       · cases he : p.err <;> simp [hl]
 
+def bufData : Option FB → List UInt8
+  | some fb => fb.data
+  | none => []
+
+/-- all bytes that left the buffer, in order -/
+def gone (l : List (UInt8 × Bool)) : List UInt8 := l.map Prod.fst
+/-- those of them that were handed to a Read -/
+def kept (l : List (UInt8 × Bool)) : List UInt8 := (l.filter (·.2)).map Prod.fst
+
+theorem gone_append_true (l : List (UInt8 × Bool)) (bs : List UInt8) :
+    gone (l ++ bs.map (·, true)) = gone l ++ bs := by
+  simp [gone, List.map_map, Function.comp_def]
+theorem gone_append_false (l : List (UInt8 × Bool)) (bs : List UInt8) :
+    gone (l ++ bs.map (·, false)) = gone l ++ bs := by
+  simp [gone, List.map_map, Function.comp_def]
+theorem kept_append_true (l : List (UInt8 × Bool)) (bs : List UInt8) :
+    kept (l ++ bs.map (·, true)) = kept l ++ bs := by
+  simp [kept, List.filter_map, List.map_map, Function.comp_def]
+theorem kept_append_false (l : List (UInt8 × Bool)) (bs : List UInt8) :
+    kept (l ++ bs.map (·, false)) = kept l := by
+  simp [kept, List.filter_map, Function.comp_def]
+theorem kept_sublist_gone (l : List (UInt8 × Bool)) : (kept l).Sublist (gone l) := by
+  unfold kept gone
+  exact (List.filter_sublist).map _
+theorem kept_eq_gone (l : List (UInt8 × Bool)) (h : ∀ x ∈ l, x.2 = true) : kept l = gone l := by
+  unfold kept gone
+  rw [List.filter_eq_self.mpr h]
+
 /-- the invariant carried through all interleavings -/
 structure Inv (s : Sys) : Prop where
-  fifo : match s.p.b with
-    | some fb => s.accepted = s.delivered ++ fb.data
-    | none => s.delivered <+: s.accepted
+  fifo : s.accepted = gone s.ledger ++ bufData s.p.b
+  del : s.delivered = kept s.ledger
   wf : ∀ fb, s.p.b = some fb → fb.wf
   wake : ∀ n, s.rd = .waiting n → s.p.quiet
   done : ∀ c, s.p.donec = some c → c = (s.p.err.isSome || s.p.breakErr.isSome)
 
 theorem inv_init (cap : Nat) : Inv (Sys.init cap) := by
-  refine ⟨?_, ?_, ?_, ?_⟩ <;> simp [Sys.init, Pipe.new, FB.wf]
+  refine ⟨?_, ?_, ?_, ?_, ?_⟩ <;> simp [Sys.init, Pipe.new, FB.wf, gone, kept, bufData]
+
+theorem inv_fromBuffer (fb : FB) (hd : fb.data = []) (hr : fb.r = 0) : Inv (Sys.fromBuffer fb) := by
+  refine ⟨?_, ?_, ?_, ?_, ?_⟩ <;> simp [Sys.fromBuffer, FB.wf, gone, kept, bufData, hd, hr]
 
 theorem signal_p (s : Sys) : (signal s).p = s.p := by
   unfold signal; split <;> rfl
@@ -131,16 +161,18 @@ theorem signal_acc (s : Sys) : (signal s).accepted = s.accepted := by
   unfold signal; split <;> rfl
 theorem signal_del (s : Sys) : (signal s).delivered = s.delivered := by
   unfold signal; split <;> rfl
+theorem signal_ledger (s : Sys) : (signal s).ledger = s.ledger := by
+  unfold signal; split <;> rfl
 theorem signal_not_waiting (s : Sys) (n : Nat) : (signal s).rd ≠ .waiting n := by
   unfold signal; split <;> simp_all
 
-theorem inv_signal {s : Sys} (h1 : match s.p.b with
-      | some fb => s.accepted = s.delivered ++ fb.data
-      | none => s.delivered <+: s.accepted)
+theorem inv_signal {s : Sys} (h1 : s.accepted = gone s.ledger ++ bufData s.p.b)
+    (h1' : s.delivered = kept s.ledger)
     (h2 : ∀ fb, s.p.b = some fb → fb.wf)
     (h4 : ∀ c, s.p.donec = some c → c = (s.p.err.isSome || s.p.breakErr.isSome)) : Inv (signal s) := by
-  refine ⟨?_, ?_, ?_, ?_⟩
-  · rw [signal_p, signal_acc, signal_del]; exact h1
+  refine ⟨?_, ?_, ?_, ?_, ?_⟩
+  · rw [signal_p, signal_acc, signal_ledger]; exact h1
+  · rw [signal_del, signal_ledger]; exact h1'
   · rw [signal_p]; exact h2
   · intro n hn; exact absurd hn (signal_not_waiting s n)
   · rw [signal_p]; exact h4
@@ -149,76 +181,96 @@ theorem closeDone_eq (d : Option Bool) (c : Bool) (h : closeDone d = some c) : c
   unfold closeDone at h; split at h <;> simp_all
 
 theorem inv_step (s : Sys) (a : Act) (h : Inv s) : Inv (s.step a).1 := by
-  obtain ⟨h1, h2, h3, h4⟩ := h
+  obtain ⟨h1, h1', h2, h3, h4⟩ := h
   unfold Sys.step
   split
-  · exact ⟨h1, h2, h3, h4⟩
+  · exact ⟨h1, h1', h2, h3, h4⟩
   cases a with
   | write d =>
     simp only
     by_cases hc : s.p.err.isSome ∨ s.p.b = none
     · rw [write_closed _ _ hc]
-      exact inv_signal (by simpa using h1) h2 h4
+      exact inv_signal (by simpa using h1) h1' h2 h4
     · have he : s.p.err = none := by
         cases h : s.p.err <;> simp_all
       obtain ⟨fb, hb⟩ : ∃ fb, s.p.b = some fb := by
         cases h : s.p.b <;> simp_all
       rw [write_open _ _ fb he hb]
       apply inv_signal
-      · simp only [hb] at h1
+      · simp only [hb, bufData] at h1 ⊢
         simp only [FB.write_data, h1, List.append_assoc]
+      · exact h1'
       · intro fb'; simp only [Option.some.injEq]
         intro h; subst h; exact FB.write_wf _ _ (h2 fb hb)
       · exact h4
   | close e fn =>
     simp only
     rcases close_cases s.p e fn with ⟨he, hr⟩ | ⟨he, hr⟩ | ⟨he, hr⟩ <;> rw [hr]
-    · exact inv_signal h1 h2 (by intro c hc; simp at hc ⊢; exact closeDone_eq _ _ hc)
-    · exact inv_signal h1 h2 (by intro c hc; have := h4 c hc; simp [he] at this ⊢; exact this)
-    · exact inv_signal h1 h2 h4
+    · exact inv_signal h1 h1' h2 (by intro c hc; simp at hc ⊢; exact closeDone_eq _ _ hc)
+    · exact inv_signal h1 h1' h2 (by intro c hc; have := h4 c hc; simp [he] at this ⊢; exact this)
+    · exact inv_signal h1 h1' h2 h4
   | brk e =>
     simp only
     rcases brk_cases s.p e with ⟨he, hr⟩ | ⟨he, hr⟩ | ⟨he, hr⟩ <;> rw [hr]
-    · exact inv_signal h1 h2 (by intro c hc; simp at hc ⊢; exact closeDone_eq _ _ hc)
-    · exact inv_signal h1 h2 (by intro c hc; have := h4 c hc; simp [he] at this ⊢; exact this)
-    · exact inv_signal h1 h2 h4
+    · exact inv_signal h1 h1' h2 (by intro c hc; simp at hc ⊢; exact closeDone_eq _ _ hc)
+    · exact inv_signal h1 h1' h2 (by intro c hc; have := h4 c hc; simp [he] at this ⊢; exact this)
+    · exact inv_signal h1 h1' h2 h4
   | release =>
     simp only
     cases hb : s.p.b with
-    | none => exact ⟨by simpa [hb] using h1, by simpa [hb] using h2, h3, h4⟩
+    | none => exact ⟨h1, h1', h2, h3, h4⟩
     | some fb =>
-      refine ⟨?_, by simp, ?_, h4⟩
-      · simp only [hb] at h1; simp [h1]
+      refine ⟨?_, ?_, by simp, ?_, h4⟩
+      · simp only [hb, bufData] at h1 ⊢
+        rw [gone_append_false, h1]; simp
+      · simp only; rw [kept_append_false]; exact h1'
       · intro n hn
         have := h3 n hn
         unfold Pipe.quiet Pipe.hasData at *
         simp_all
+  | discard =>
+    simp only
+    cases hb : s.p.b with
+    | none => exact ⟨h1, h1', h2, h3, h4⟩
+    | some fb =>
+      refine ⟨?_, ?_, ?_, ?_, h4⟩
+      · simp only [hb, bufData] at h1 ⊢
+        rw [gone_append_false, h1]; simp [FB.reset]
+      · simp only; rw [kept_append_false]; exact h1'
+      · intro fb' hfb'; simp at hfb'; subst hfb'
+        have := h2 fb hb
+        unfold FB.wf FB.reset at *; simp
+      · intro n hn
+        have := h3 n hn
+        unfold Pipe.quiet Pipe.hasData at *
+        simp_all [FB.reset, FB.len]
   | startRead n =>
     simp only
     split
-    · refine ⟨h1, h2, ?_, h4⟩; intro m hm; simp at hm
-    · exact ⟨h1, h2, h3, h4⟩
+    · refine ⟨h1, h1', h2, ?_, h4⟩; intro m hm; simp at hm
+    · exact ⟨h1, h1', h2, h3, h4⟩
   | readerStep =>
     simp only
     split
     · rename_i n hrd
       rcases readTry_cases s.p n with ⟨e, hb, hr⟩ | ⟨fb, hb, hbuf, hl, hr⟩ | ⟨e, hb, hd, he, hr⟩ | ⟨hq, hr⟩ <;>
         rw [hr] <;> simp only
-      · refine ⟨h1, h2, ?_, h4⟩; intro m hm; simp at hm
-      · refine ⟨?_, ?_, ?_, h4⟩
-        · simp only [hbuf] at h1
-          simp only [h1, List.append_assoc, ← FB.read_split]
+      · refine ⟨h1, h1', h2, ?_, h4⟩; intro m hm; simp at hm
+      · refine ⟨?_, ?_, ?_, ?_, h4⟩
+        · simp only [hbuf, bufData] at h1 ⊢
+          rw [gone_append_true, h1, List.append_assoc, ← FB.read_split]
+        · rw [kept_append_true, h1']
         · intro fb' hfb'; simp at hfb'; subst hfb'; exact FB.read_wf _ _ (h2 fb hbuf)
         · intro m hm; simp at hm
-      · refine ⟨h1, h2, ?_, h4⟩; intro m hm; simp at hm
-      · refine ⟨h1, h2, ?_, h4⟩; intro m _; exact hq
-    · exact ⟨h1, h2, h3, h4⟩
-  | getErr => exact ⟨h1, h2, h3, h4⟩
+      · refine ⟨h1, h1', h2, ?_, h4⟩; intro m hm; simp at hm
+      · refine ⟨h1, h1', h2, ?_, h4⟩; intro m _; exact hq
+    · exact ⟨h1, h1', h2, h3, h4⟩
+  | getErr => exact ⟨h1, h1', h2, h3, h4⟩
   | done =>
     simp only [Pipe.done]
     split
-    · exact ⟨h1, h2, h3, h4⟩
-    · refine ⟨h1, h2, ?_, ?_⟩
+    · exact ⟨h1, h1', h2, h3, h4⟩
+    · refine ⟨h1, h1', h2, ?_, ?_⟩
       · intro n hn; have := h3 n hn; unfold Pipe.quiet Pipe.hasData at *; simpa using this
       · intro c hc; simp at hc ⊢; exact hc.symm
 
@@ -227,14 +279,6 @@ theorem inv_exec (s : Sys) (as : List Act) (h : Inv s) : Inv (s.exec as) := by
   induction as generalizing s with
   | nil => exact h
   | cons a as ih => exact ih _ (inv_step s a h)
-
-/-- Reachable states -/
-def Reachable (s : Sys) : Prop := ∃ cap acts, s = (Sys.init cap).exec acts
-
-theorem reachable_inv {s : Sys} (h : Reachable s) : Inv s := by
-  obtain ⟨cap, acts, rfl⟩ := h
-  exact inv_exec _ _ (inv_init cap)
-
 
 /-- bytes a `Write d` that answered `n` reported as taken -/
 def accOf (a : Act) (o : Obs) : List UInt8 :=
@@ -267,6 +311,7 @@ theorem step_ghost (s : Sys) (a : Act) :
   | close e fn => simp [accOf, delOf, signal_acc, signal_del]
   | brk e => simp [accOf, delOf, signal_acc, signal_del]
   | release => simp only; split <;> simp [accOf, delOf]
+  | discard => simp only; split <;> simp [accOf, delOf]
   | startRead n => simp only; split <;> simp [accOf, delOf]
   | readerStep =>
     simp only
@@ -296,5 +341,71 @@ theorem run_fst (s : Sys) (acts : List Act) : (s.run acts).1 = s.exec acts := by
   | nil => rfl
   | cons a as ih => simp only [Sys.run, List.foldl]; exact ih _
 
+
+/-! ### lifecycles over the pool -/
+
+structure WInv (w : World) : Prop where
+  poolEmpty : ∀ fb ∈ w.pool, fb.data = [] ∧ fb.r = 0
+  pipes : ∀ s ∈ w.pipes, Inv s
+
+theorem winv_init : WInv World.init := ⟨by simp [World.init], by simp [World.init]⟩
+
+theorem winv_step (w : World) (a : WAct) (h : WInv w) : WInv (w.step a) := by
+  obtain ⟨hp, hs⟩ := h
+  cases a with
+  | fresh cap =>
+    refine ⟨hp, ?_⟩
+    intro s hm
+    simp only [World.step, List.mem_append, List.mem_singleton] at hm
+    rcases hm with hm | rfl
+    · exact hs s hm
+    · exact inv_fromBuffer _ rfl rfl
+  | reuse k =>
+    simp only [World.step]
+    cases hk : w.pool[k]? with
+    | none => exact ⟨hp, hs⟩
+    | some fb =>
+      have hmem : fb ∈ w.pool := List.mem_of_getElem? hk
+      refine ⟨?_, ?_⟩
+      · intro fb' hm; exact hp fb' (List.mem_of_mem_eraseIdx hm)
+      · intro s hm
+        simp only [List.mem_append, List.mem_singleton] at hm
+        rcases hm with hm | rfl
+        · exact hs s hm
+        · exact inv_fromBuffer _ (hp fb hmem).1 (hp fb hmem).2
+  | on i act =>
+    simp only [World.step]
+    cases hi : w.pipes[i]? with
+    | none => exact ⟨hp, hs⟩
+    | some s =>
+      have hmem : s ∈ w.pipes := List.mem_of_getElem? hi
+      refine ⟨?_, ?_⟩
+      · intro fb hm
+        simp only at hm
+        split at hm
+        · simp only [List.mem_append, List.mem_singleton] at hm
+          rcases hm with hm | rfl
+          · exact hp fb hm
+          · simp [FB.reset]
+        · exact hp fb hm
+      · intro s' hm
+        rcases List.mem_or_eq_of_mem_set hm with hm | rfl
+        · exact hs s' hm
+        · exact inv_step s act (hs s hmem)
+
+theorem winv_exec (w : World) (as : List WAct) (h : WInv w) : WInv (w.exec as) := by
+  unfold World.exec
+  induction as generalizing w with
+  | nil => exact h
+  | cons a as ih => exact ih _ (winv_step w a h)
+
+/-- Reachable pipe states: a single pipe under any schedule, or any pipe of any lifecycle over the pool -/
+def Reachable (s : Sys) : Prop :=
+  (∃ cap acts, s = (Sys.init cap).exec acts) ∨ (∃ was, s ∈ (World.init.exec was).pipes)
+
+theorem reachable_inv {s : Sys} (h : Reachable s) : Inv s := by
+  rcases h with ⟨cap, acts, rfl⟩ | ⟨was, hm⟩
+  · exact inv_exec _ _ (inv_init cap)
+  · exact (winv_exec _ was winv_init).pipes s hm
 
 end BfeVerif.C21
